@@ -4,6 +4,7 @@ pub mod c03;
 pub mod c04;
 pub mod c06;
 pub mod c07;
+pub mod c08;
 pub mod c10;
 pub mod c12;
 pub mod c13;
@@ -24,6 +25,7 @@ pub fn run(ctx: &Ctx, out: &mut Out) -> bool {
         "C04" => c04::run(ctx, out),
         "C06" => c06::run(ctx, out),
         "C07" => c07::run(ctx, out),
+        "C08" => c08::run(ctx, out),
         "C10" => c10::run(ctx, out),
         "C12" => c12::run(ctx, out),
         "C13" => c13::run(ctx, out),
